@@ -5,6 +5,7 @@ import ChythonModel.Proofs.C05Rules
 import ChythonModel.Proofs.C05Thiele
 import ChythonModel.Proofs.C05Round
 import ChythonModel.Proofs.C05Prepare
+import ChythonModel.Proofs.C05SearchSound
 /-!
 # C05 — Kekulé and aromatic forms describe the same molecule; conversions are stable
 
@@ -26,7 +27,13 @@ that an accepted output satisfies the declarative clauses of the property, for e
 * §5 the regenerated rule table of `aromatics/_rules.py`: every repair rule conserves charge, patches only atoms and
   bonds of its own pattern, and therefore any run of the `__fix_rings` loop (`fixRings`, any molecule, any list of
   charge-faithful matches) conserves the molecular charge; the atomic-number constants of kekule.py / thiele.py
-  name the elements the model's literals assume.
+  name the elements the model's literals assume;
+* §6 the backtracking search `_kekule_component` (`Model/C05Search.lean: kekuleComponent`, the function the driver's
+  `ks` runs against the real generator, verbatim): it is defined by well-founded recursion (no fuel; the measure and
+  its decrease are theorems here), every path it yields has `size` entries, the pyridine-over-pyrrole buffer only
+  reorders, and — **soundness** — on every component `__prepare_rings` can hand over that has no ambiguous
+  ("pyrrole or pyridine") atom, every yielded path assigns every skeleton bond exactly once, order 1 or 2, with the
+  double bonds a perfect matching of the atoms outside `double_bonded` that avoids `double_bonded`.
 -/
 namespace ChythonModel.Props.C05
 open ChythonModel.Model ChythonModel.Model.C05 ChythonModel.Model.C05T ChythonModel.Spec.Kekule ChythonModel.Proofs.C05
@@ -365,5 +372,147 @@ theorem constants_are_elements :
     (∀ sz ∈ kekuleConstants, Valence.symOf sz.2 = some sz.1) ∧ (∀ sz ∈ thieleConstants, Valence.symOf sz.2 = some sz.1) ∧
     kekuleConstants.map (·.2) = [5, 6, 7, 8, 15, 16, 33, 34, 52] ∧ thieleConstants.map (·.2) = [5, 6, 7, 8, 15, 16, 34] := by
   decide +kernel
+
+/-! ## 6. the bond-assignment search `_kekule_component` -/
+
+section search
+open ChythonModel.Model.C05S ChythonModel.Proofs.C05S
+
+/-- **Termination, part 1.** `explore` is defined by well-founded recursion on the lexicographic measure
+    (atoms not on the path, pending entries whose atom is on the path, length of the level) — the model has no fuel
+    parameter. When the closing entry `(start, …)` is popped the first two components do not grow and the level
+    shrinks … -/
+theorem search_measure_start (c : Ctx) (level : Level) (path : Path) (e : Entry) (hl : level.getLast? = some e)
+    (hs : e.atom = c.start) :
+    unvisited c (path ++ [(e.atom, e.prev, e.bond)]) ≤ unvisited c path ∧
+    stale c (path ++ [(e.atom, e.prev, e.bond)]) level.dropLast ≤ stale c path level ∧
+    level.dropLast.length < level.length :=
+  measure_start hl hs
+
+/-- **Termination, part 2.** … and every continuation a plan opens (for **any** component dict, any sets, any level and
+    path — no domain assumption) either visits a new atom or has one stale pending entry less. Together with part 1
+    this is the `decreasing_by` of `explore`: the search terminates on every input. -/
+theorem search_measure_branch (c : Ctx) (level : Level) (path : Path) (e : Entry) (hl : level.getLast? = some e)
+    (hs : e.atom ≠ c.start) (ins0 : Option Entry) (clos : List Nat) (branches : List (List Entry))
+    (hp : plan c e.atom e.prev e.bond (hashedIn (path ++ [(e.atom, e.prev, e.bond)]))
+            (path ++ [(e.atom, e.prev, e.bond)]).length = .go ins0 clos branches)
+    (base : Level) (hr : removeAll e.atom (insert0 ins0 level.dropLast) clos = some base)
+    (b : List Entry) (hb : b ∈ branches) :
+    unvisited c ((path ++ [(e.atom, e.prev, e.bond)]) ++ clos.map fun x => (x, e.atom, 1)) < unvisited c path ∨
+    (unvisited c ((path ++ [(e.atom, e.prev, e.bond)]) ++ clos.map fun x => (x, e.atom, 1)) = unvisited c path ∧
+      stale c ((path ++ [(e.atom, e.prev, e.bond)]) ++ clos.map fun x => (x, e.atom, 1)) (base ++ b) <
+        stale c path level) :=
+  measure_branch hl hs hp hr hb
+
+/-- every complete path has exactly `size` entries (any input) -/
+theorem search_paths_have_size (c : Ctx) (level : Level) (path : Path) (limit : Nat) :
+    ∀ p ∈ (explore c level path limit).found, p.length = c.size :=
+  explore_found_length c level path limit
+
+/-- what a plan contains (any input): the entry inserted at position 0 closes the ring to the start atom, closures are
+    visited neighbours, every pushed entry leaves the current atom for an unvisited neighbour with order 1 or 2 -/
+theorem search_plan_entries (c : Ctx) (atom prev bond len : Nat) (hashed : Nat → Bool) (ins0 : Option Entry)
+    (clos : List Nat) (branches : List (List Entry))
+    (h : plan c atom prev bond hashed len = .go ins0 clos branches) :
+    ∃ nbrs, c.rings.lookup atom = some nbrs ∧
+      (∀ e0, ins0 = some e0 → c.start ∈ nbrs ∧ c.start ≠ prev ∧ e0.atom = c.start ∧ e0.prev = atom ∧
+        (e0.bond = 1 ∨ e0.bond = 2) ∧ e0.tag = none) ∧
+      (∀ x ∈ clos, x ∈ nbrs ∧ x ≠ prev ∧ x ≠ c.start ∧ hashed x = true) ∧
+      (∀ b ∈ branches, ∀ e ∈ b, e.atom ∈ nbrs ∧ e.atom ≠ prev ∧ e.atom ≠ c.start ∧ hashed e.atom = false ∧
+        e.prev = atom ∧ (e.bond = 1 ∨ e.bond = 2)) :=
+  plan_spec h
+
+/-- **local alternation**: at an atom with two or three distinct neighbours and no ambiguous atoms in the component,
+    every continuation of a plan gives the atom exactly one double bond (the bond it was entered by, the closing bond or
+    one pushed bond) — none if the atom is in `double_bonded` — handles all ring closures, reaches every unvisited
+    neighbour once and never pushes a double bond towards an atom of `double_bonded` -/
+theorem search_plan_alternates (c : Ctx) (a p b len : Nat) (hashed : Nat → Bool) (ins0 : Option Entry) (clos : List Nat)
+    (brs : List (List Entry)) (h : plan c a p b hashed len = .go ins0 clos brs)
+    (nbrs : List Nat) (hn : c.rings.lookup a = some nbrs) (hN : nbrs.Nodup) (hL : nbrs.length ≤ 3)
+    (h2 : 2 ≤ nbrs.length) (hP : p ∈ nbrs) (hpyr : c.pyr = []) (hb : b = 1 ∨ b = 2)
+    (hdb : b = 2 → c.db.contains a = false) (hz : c.start ≠ 0) :
+    (c.start ∈ nbrs → c.start ≠ p → ∃ e0, ins0 = some e0) ∧
+    (∀ e0, ins0 = some e0 → e0.bond = loopBond c) ∧
+    clos = closuresOf c p hashed nbrs ∧
+    (∀ br ∈ brs, (br.map (·.atom)).Perm (forStackOf c p hashed nbrs)) ∧
+    (∀ br ∈ brs, ∀ e ∈ br, e.bond = 2 → c.db.contains e.atom = false) ∧
+    (∀ br ∈ brs, (if b = 2 then 1 else 0) + twos ins0.toList + twos br = if c.db.contains a = true then 0 else 1) :=
+  plan_facts h hn hN hL h2 hP hpyr hb hdb hz
+
+/-- the `buffer_size` logic only reorders: what has been yielded plus what is still held is a permutation of the
+    complete paths fed so far -/
+theorem search_buffer_only_reorders (pyr : List Nat) (ps : List Path) (b : Buf) :
+    ((feedAll pyr b ps).2 ++ (feedAll pyr b ps).1.held).Perm (b.held ++ ps) :=
+  feedAll_perm pyr ps b
+
+/-- every path `kekuleComponent` yields is a complete path of the search (any input, any buffer size) -/
+theorem search_yields_are_complete_paths (rings : Adj) (db pyr : List Nat) (buf limit : Nat) :
+    ∀ y ∈ (kekuleComponent rings db pyr buf limit).1, y ∈ (searchRaw rings db pyr limit).found :=
+  component_yields_found rings db pyr buf limit
+
+/-- the decidable domain test the driver evaluates for every request is the domain of the soundness theorem -/
+theorem search_domain_check_sound (rings : Adj) (h : graphOKb rings = true) : GraphOK rings := graphOKb_sound h
+
+/-- **Soundness, full statement**: on every component `__prepare_rings` can hand over, with any `double_bonded` /
+    `pyrroles`, every yielded path assigns every skeleton bond exactly once (order 1 or 2) and its double bonds are a
+    matching in which an atom of `double_bonded` has none, an atom of `pyrroles` at most one and every other atom
+    exactly one. -/
+def SearchSound : Prop :=
+  ∀ (rings : Adj) (db pyr : List Nat) (buf limit : Nat), GraphOK rings →
+    ∀ y ∈ (kekuleComponent rings db pyr buf limit).1,
+      (∀ x ∈ y, x.1 ∈ nbr rings x.2.1 ∧ (x.2.2 = 1 ∨ x.2.2 = 2)) ∧ (y.map key).Nodup ∧
+      (∀ v w, w ∈ nbr rings v → ukey v w ∈ y.map key) ∧
+      (∀ v, nbr rings v ≠ [] →
+        if db.contains v = true then dbl v y = 0 else if pyr.contains v = true then dbl v y ≤ 1 else dbl v y = 1)
+
+/-- **Soundness, proved part**: the full statement for components without ambiguous atoms (`pyrroles = ∅`: every ring
+    atom's role is fixed by the classification — all molecules whose ring hetero atoms state their hydrogens).
+    Excluded: components with a "pyrrole or pyridine" atom; for those the same statement is evaluated on every output
+    of every run (checker `kekn` on the molecule, brute force on the component), but the invariant used here does not
+    hold (such atoms are legitimately visited twice). -/
+theorem search_sound_partial (rings : Adj) (db : List Nat) (buf limit : Nat) (G : GraphOK rings) :
+    ∀ y ∈ (kekuleComponent rings db [] buf limit).1,
+      (∀ x ∈ y, x.1 ∈ nbr rings x.2.1 ∧ (x.2.2 = 1 ∨ x.2.2 = 2)) ∧ (y.map key).Nodup ∧
+      (∀ v w, w ∈ nbr rings v → ukey v w ∈ y.map key) ∧
+      (∀ v, nbr rings v ≠ [] → dbl v y = if db.contains v = true then 0 else 1) := by
+  intro y hy
+  have h := component_sound G db buf limit y hy
+  exact ⟨h.edges, h.once, h.all, h.matching⟩
+
+/-- **Completeness, full statement** (not proved; evaluated against an independent enumeration of all matchings on
+    every component with ≤ 4 (quick) / 5 (thorough) atoms × all labelings and on the recorded calls): when the
+    start atom is not ambiguous (`double_bonded` non-empty or some non-condensed atom outside `pyrroles`) and the
+    generator is run to its end, every such matching is yielded; in particular `InvalidAromaticRing` is raised only if
+    none exists. (With an ambiguous start atom the code forces a double bond on it: 1624 of 237 000 enumerated cases
+    miss forms, 60 raise although a form exists — see design/C05.md.) -/
+def SearchComplete : Prop :=
+  ∀ (rings : Adj) (db pyr : List Nat) (buf limit : Nat), GraphOK rings →
+    (db ≠ [] ∨ ∃ p ∈ rings, p.2.length = 2 ∧ pyr.contains p.1 = false) →
+    (kekuleComponent rings db pyr buf limit).2 ≠ .more → (∀ e, (kekuleComponent rings db pyr buf limit).2 ≠ .crashed e) →
+    ∀ f : Nat × Nat → Nat,
+      (∀ v w, w ∈ nbr rings v → (f (ukey v w) = 1 ∨ f (ukey v w) = 2)) →
+      (∀ v, nbr rings v ≠ [] →
+        let d := ((nbr rings v).filter fun w => f (ukey v w) == 2).length
+        if db.contains v = true then d = 0 else if pyr.contains v = true then d ≤ 1 else d = 1) →
+      ∃ y ∈ (kekuleComponent rings db pyr buf limit).1, ∀ x ∈ y, x.2.2 = f (key x)
+
+/-- **No duplicates, full statement** (not proved; evaluated like `SearchComplete`): two different positions of the
+    yield sequence never carry the same set of double bonds. -/
+def SearchNoDup : Prop :=
+  ∀ (rings : Adj) (db pyr : List Nat) (buf limit : Nat), GraphOK rings →
+    ((kekuleComponent rings db pyr buf limit).1.map fun y =>
+      (y.filter (·.2.2 == 2)).map key |>.mergeSort fun a b => decide (a.1 < b.1 ∨ (a.1 = b.1 ∧ a.2 ≤ b.2))).Nodup
+
+/-- naphthalene as `__kekule_full` builds the component dict -/
+def naphthaleneRings : Adj :=
+  [(1, [2, 10]), (2, [1, 3]), (3, [2, 4]), (4, [3, 5]), (5, [4, 6, 10]), (6, [5, 7]), (7, [6, 8]), (8, [7, 9]),
+   (9, [8, 10]), (10, [9, 1, 5])]
+
+example : GraphOK naphthaleneRings := graphOKb_sound (by decide +kernel)
+/-- not a prepared component: atom 1 has a single ring neighbour -/
+example : graphOKb [(1, [2]), (2, [1, 3, 4]), (3, [2, 4]), (4, [2, 3])] = false := by decide +kernel
+example : (feedAll [7] ⟨1, []⟩ [[(1, 7, 1)], [(2, 7, 1)]]).2 = [[(1, 7, 1)], [(2, 7, 1)]] := by decide +kernel
+
+end search
 
 end ChythonModel.Props.C05
